@@ -234,15 +234,27 @@ def inspect_spec_id(cfg: dict, scratch: str) -> Optional[str]:
     return m.group(1) if m else None
 
 
-def launch_ids(pipe: str, rs: dict, scratch: str, extra: List[str], csv_variant: Optional[int] = None, touch: bool = False, yaml_text: Optional[str] = None):
+def launch_ids(pipe: str, rs: dict, scratch: str, extra: List[str], csv_variant: Optional[int] = None, touch: bool = False, yaml_text: Optional[str] = None,
+               subdir: bool = False):
+    """subdir: the configuration and its source file live in <scratch>/cfg while the process works in <scratch>, where a DECOY
+    runs.csv with other content lies: relative source paths are relative to the configuration file, not to the working directory."""
     harness.clear_dir(scratch)
+    if subdir:
+        os.mkdir(os.path.join(scratch, "cfg"))
+        write_csv(os.path.join(scratch, "cfg"), 3, csv_variant or 0)
+        write_csv(scratch, 2, 7)
+        return _launch_ids_in(pipe, rs, scratch, os.path.join(scratch, "cfg"), extra, yaml_text)
     write_csv(scratch, 3, csv_variant or 0)
     if touch:
         os.utime(os.path.join(scratch, "runs.csv"), (1.0e9, 1.0e9))
+    return _launch_ids_in(pipe, rs, scratch, scratch, extra, yaml_text)
+
+
+def _launch_ids_in(pipe, rs, scratch, cfgdir, extra, yaml_text):
     tpath = os.path.join(scratch, "trace.jsonl")
     cfg = {"extensions": ["verif_lib"], "pipeline": {"nodes": nodes_for(pipe, rs)}, "run_space": copy.deepcopy(rs),
            "trace": {"driver": "jsonl", "output_path": tpath, "options": {"detail": "hash"}}}
-    yp = os.path.join(scratch, "p.yaml")
+    yp = os.path.join(cfgdir, "p.yaml")
     with open(yp, "w") as f:
         f.write(yaml_text if yaml_text is not None else yaml.safe_dump(cfg, sort_keys=False))
     res = cli.run_cli(["run", yp, "-q", *extra])
@@ -361,6 +373,18 @@ def judge_ids(scratch: str, tier: str) -> Tuple[int, List[Tuple[str, str, dict]]
         # inputs id <=> file content
         if rsname == "csv":
             base_in = st.get("run_space_inputs_id")
+            sd, _, rsd = launch_ids(pipe, rs, scratch, [], subdir=True)
+            n_eval += 1
+            if sd is None or rsd.code != 0:
+                bad("relative-source-path-not-relative-to-config", f"configuration in a sub-directory, other working directory: exit {rsd.code} {rsd.err[-200:]!r}")
+            else:
+                starts = [r for r in LAST_RECORDS if r.get("record_type") == "pipeline_start"]
+                got = [r.get("run_space_context", {}).get("factor") for r in starts]
+                # (the inputs id legitimately differs: RSM v1 fingerprints carry the file's absolute URI)
+                if sd["run_space_spec_id"] != spec or got != [0.5, 1.5, 2.5]:
+                    bad("relative-source-path-not-relative-to-config",
+                        f"same configuration + source file in a sub-directory (a decoy runs.csv in the working directory): spec {sd['run_space_spec_id'][:12]} vs {spec[:12]}, "
+                        f"factors of the runs {got}")
             t, _, _ = launch_ids(pipe, rs, scratch, [], touch=True)
             ch, _, _ = launch_ids(pipe, rs, scratch, [], csv_variant=1)
             n_eval += 2
